@@ -32,16 +32,17 @@ Definition ends_in_kw (v1 : bool) (r : rstate) (d : Z) (L : list N) (after : opt
 (* the mode of the +/- sub-machine after a run of + and - bytes read at bracket depth 0, started in mode m
    (mNormal, mPlus or mMinus): ++ and -- are complete tokens (back to mNormal), in +- and -+ the second
    byte is pending *)
+Definition pm_step (m : mode) (c : cclass) : mode :=
+  match m, c with
+  | mNormal, CPlus => mPlus | mNormal, CMinus => mMinus
+  | mPlus, CPlus => mNormal | mPlus, CMinus => mMinus
+  | mMinus, CPlus => mPlus | mMinus, CMinus => mNormal
+  | _, _ => m
+  end.
 Fixpoint pm_run (m : mode) (l : list cclass) : mode :=
   match l with
   | [] => m
-  | c :: l' =>
-      pm_run (match m, c with
-              | mNormal, CPlus => mPlus | mNormal, CMinus => mMinus
-              | mPlus, CPlus => mNormal | mPlus, CMinus => mMinus
-              | mMinus, CPlus => mPlus | mMinus, CMinus => mNormal
-              | _, _ => m
-              end) l'
+  | c :: l' => pm_run (pm_step m c) l'
   end.
 
 (* line L ends in a run of + and - bytes whose last token is a single + or - when the run is read greedily from
